@@ -53,6 +53,18 @@ CHECKS = {
          "12 collections of 0..3 terms (ground, repeated, shared variables, nested) as Vec<LTerm> and as LTerm list x 12 bodies x 3 contexts: answers equal those of the explicit conjunction of instantiated bodies (instance-set multisets) and of the reference semantics; the empty collection behaves as true.",
          "The collection is fixed at goal construction (documented reading).",
          "4/C12"),
+ "C13": ("bounded-exhaustive surface programs generated, compiled with the current macros and compared with a reference interpreter (E5)",
+         "match / matche / matcha / matchu expressions over a pattern alphabet (wildcard, names, repeated names, literals, [], proper/improper list patterns, tuple-struct / named-struct / nested compound patterns, a name equal to an outer variable) x matched terms x bodies as single arms, and two/three-arm expressions with alternatives under all four operators, emitted as Rust source, compiled against /repo's proc-macros, run, and compared with the reference expansion (arm-local fresh names; committed choice for matcha/matchu).",
+         "Identifiers from a fixed name set; programs the Rust type system cannot express (compound pattern against a list subject) are not generated.",
+         "4/C13"),
+ "C14": ("bounded-exhaustive surface programs generated, compiled with the current macros and compared with a reference interpreter (E5)",
+         "The clause grammar as surface syntax: every literal kind in argument / list item / improper tail / nested position, `_`, nested lists, constructors on both sides of == and != and as relation arguments in tree-term / {expr} / lterm! forms; conjunctions, conde with bare and bracketed arms, fresh, closure, onceo / conda / condu / dfs, loop{} prefixes, library and user relation calls, for over Vec and LTerm list, project; proto_vulcan_query! with 1-3 query variables reported in declaration order; compared with the reference interpreter on the same AST. A generated program that no longer compiles is attributed to its case and reported.",
+         "Shapes the surface cannot express on the pinned tree (closure nested in closure over the same variable, `for` bodies mentioning outer variables, negative literals) are not generated; see DESIGN.md.",
+         "4/C14"),
+ "C15": ("bounded-exhaustive surface programs and their alpha-renamed twins compiled with the current macros (E5)",
+         "Programs with shadowing (nested fresh clauses reusing a name, a fresh clause shadowing a query variable's name), equal names in sibling scopes, fresh clauses in conde arms and closures, pattern arms binding names of an enclosing fresh clause, and recursive relations whose unfoldings introduce equally named variables, each compiled as written and with every binder renamed to a unique name: both have the answers of the lexically scoped reference interpreter.",
+         "Names from a fixed set; hygiene against arbitrary user identifiers is out of reach.",
+         "4/C15"),
  "C16": ("bounded-exhaustive FD programs x deviation-bounded hash-order schedules vs brute force (E3 x E2)",
          "Every program of three FD tiers (one constraint: all kinds x all operand patterns/aliasings/constants x all domain assignments x all statement orders; two-three constraints mixed with ==, pre-bound and fully ground operands; answers shaped as lists/compounds, hidden variables, conde) is run under every schedule of the hash-ordered iterations with <= d deviations plus all-reversed; every answer must be a brute-force solution.",
          "Domains inside [-2, 3]; d=1 quick (T1) / 2; well-formed programs only (every FD operand has a domain or is an integer).",
